@@ -95,6 +95,12 @@ def lin(fn, nid, env=None):
             if a is not None and b is not None and set(b.keys()) <= {1}:
                 return {('div', canon(a), 2 ** b.get(1, 0)): 1}
         return {fn.fp(nid): 1}
+    if k == 'CXXOperatorCallExpr' and n.get('oop') in ('+', '-') and len(n['ch']) == 2:
+        # iterator arithmetic: begin() + k
+        a, b = lin(fn, n['ch'][0], env), lin(fn, n['ch'][1], env)
+        if a is None or b is None:
+            return None
+        return _add(a, b, 1 if n['oop'] == '+' else -1)
     if k in ('DeclRefExpr', 'MemberExpr'):
         key = fn.fp(nid)
         if env and key in env and env[key] is not None:
